@@ -103,7 +103,7 @@ class P(Play):
 def cases(draw, tier):
     provs = draw(st.sampled_from([("machine",), ("machine", "model"), ("machine", "model", "l0"), ("machine", "model", "l0", "l1", "late0"), ("machine", "l0")]))
     late = tuple(p for p in provs if p.startswith("late"))
-    async_mode = draw(st.sampled_from(["none", "none", "all", "mixed", "listeners"]))
+    async_mode = draw(st.sampled_from(["none", "none", "all", "mixed", "listeners", "late-only"]))
     spec = draw(gen.machine_spec(max_states=4, max_extra=6, providers=provs, late=late, async_mode="none" if async_mode == "listeners" else async_mode,
                                  sends=draw(st.booleans()), attach=("conv", "name", "deco", "func")))
     if async_mode == "listeners":  # the only coroutines live on listeners
